@@ -36,12 +36,13 @@ def plan(tier):
 
 def floors(tier):
     return {"min_decided": 1200, "counters": {"risk_evals": 5000, "history_evals": 1000, "hedges_exact": 150, "hedges_pseudo": 100, "close_calls": 2000,
-                                              "closes_done": 200, "rolls_done": 150, "select_active_evals": 1500, "risk_bt_evals": 3000, "pretrades": 300}, "max_undecided_frac": 0.3}
+                                              "closes_done": 200, "rolls_done": 150, "select_active_evals": 1500, "risk_bt_evals": 3000, "pretrades": 300, "hedges_with_lazy_nonunit_instrument": 30}, "max_undecided_frac": 0.3}
 
 
 def mk_tree(rng, names, mults):
     shape = rng.choice(["flat", "nested", "deep"])
-    sec = lambda nm: Security(nm, multiplier=mults[nm])
+    lazy = {nm: rng.random() < 0.3 for nm in names}     # declared lazily: not in the tree until first traded (e.g. by the hedge itself)
+    sec = lambda nm: Security(nm, multiplier=mults[nm], lazy_add=lazy[nm])
     if shape == "flat" or len(names) < 3:
         return Strategy("r", [], children=[sec(nm) for nm in names]), "flat"
     if shape == "nested":
@@ -128,7 +129,9 @@ def case_risk(cs, hedge):
         # a second call on a later date keeps earlier history rows and fills the new one
         return common.result(common.HELD, sig=sig, nt=nontriv, cnt=cnt, sample=w)
     k = len(measures)
-    pool = [c.name for c in root.children.values() if isinstance(c, SecurityBase) and all(c.name in ur[m].columns for m in measures)]
+    declared = dict(root.children)
+    declared.update(getattr(root, "_lazy_children", {}))
+    pool = [c.name for c in declared.values() if isinstance(c, SecurityBase) and all(c.name in ur[m].columns for m in measures)]
     mode = rng.choice(["exact", "exact", "over", "under"])
     want = k if mode == "exact" else (k + 1 if mode == "under" else max(1, k - 1))
     if mode == "over" and k == 1:
@@ -137,15 +140,21 @@ def case_risk(cs, hedge):
         return common.result(common.OOD, sig=sig, why="not enough instruments with unit risk at the root")
     sel = rng.sample(pool, want)
     root.temp = {"selected": sel}
-    J = np.array([[ur[m].loc[now, s] * root[s].multiplier for m in measures] for s in sel])   # true sensitivity of each instrument per unit notional
+    J = np.array([[ur[m].loc[now, s] * mults[s] for m in measures] for s in sel])   # true sensitivity of each instrument per unit notional
     R = np.array([exp_risk(root, m, ur, now) for m in measures])
     if mode == "exact" and abs(np.linalg.det(np.array([[ur[m].loc[now, s] for m in measures] for s in sel]))) < 1e-6:
         return common.result(common.OOD, sig=sig, why="near-singular Jacobian")
     mark = len(ins.EV)
+    lazy_sel = [s_ for s_ in sel if s_ not in root.children]
     try:
         algos.HedgeRisks(measures, pseudo=(mode != "exact"))(root)
     except np.linalg.LinAlgError:
         return common.result(common.OOD, sig=sig, why="singular Jacobian")
+    except Exception as e:
+        return common.result(common.VIOL, sig=sig, nt=True, cnt=cnt, mech="c20_hedge_raises", witness=dict(w, selected=sel, mode=mode, exception="%s: %s" % (type(e).__name__, str(e)[:160])))
+    common.bump(cnt, "hedges_with_lazy_instrument", 1 if lazy_sel else 0)
+    if any(mults[s_] != 1 for s_ in lazy_sel):
+        common.bump(cnt, "hedges_with_lazy_nonunit_instrument")
     for m in measures:
         algos.UpdateRisk(m)(root)
     gross = sum(abs(exp_risk(s_, m, ur, now)) for s_ in root.members if isinstance(s_, SecurityBase) for m in measures) + np.abs(R).sum()
@@ -155,8 +164,8 @@ def case_risk(cs, hedge):
         e = exp_risk(root, m, ur, now)
         if not abs(after[j] - e) <= 1e-9 * (1 + abs(e) + gross):
             return common.result(common.VIOL, sig=sig, nt=True, cnt=cnt, mech="c20_risk", witness=dict(w, node="r", measure=m, risk=after[j], expected=e, after="HedgeRisks"))
-    w.update(instruments={s: root[s].multiplier for s in sel}, mode=mode, risk_before=R.tolist(), risk_after=after.tolist())
-    nonunit = any(root[s].multiplier != 1 for s in sel)
+    w.update(instruments={s: mults[s] for s in sel}, mode=mode, risk_before=R.tolist(), risk_after=after.tolist())
+    nonunit = any(mults[s] != 1 for s in sel)
     sig = sig + [mode]
     if mode in ("exact", "under"):
         common.bump(cnt, "hedges_exact" if mode == "exact" else "hedges_pseudo")
